@@ -4,6 +4,7 @@ import (
 	"encoding/json"
 	"fmt"
 	"regexp"
+	"sort"
 	"strings"
 	"time"
 
@@ -50,6 +51,26 @@ var c13stmtOps = []c13op{
 	{"Query.String", func(s influxql.Statement, _ *influxql.SelectStatement) {
 		_ = (&influxql.Query{Statements: influxql.Statements{s, s}}).String()
 	}},
+}
+
+// c13callTyper types field references through a schema and calls by name; unknown functions are an error.
+type c13callTyper struct{ influxql.TypeMapper }
+
+func (c13callTyper) CallType(name string, args []influxql.DataType) (influxql.DataType, error) {
+	switch name {
+	case "mean", "percentile", "derivative", "holt_winters":
+		return influxql.Float, nil
+	case "count", "elapsed":
+		return influxql.Integer, nil
+	case "top", "bottom", "max", "sample", "distinct":
+		if len(args) > 0 {
+			return args[0], nil
+		}
+		return influxql.Unknown, nil
+	case "unknownfn":
+		return influxql.Unknown, fmt.Errorf("unknown function %s", name)
+	}
+	return influxql.Unknown, nil
 }
 
 func c13point() map[string]interface{} {
@@ -127,6 +148,49 @@ var c13selOps = []c13op{
 				_ = influxql.EvalType(s.Condition, s.Sources, sc)
 			}
 		}
+	}},
+	{"EvalType(call mapper)", func(_ influxql.Statement, s *influxql.SelectStatement) {
+		// a type mapper that also types calls, alone and behind MultiTypeMapper; nil mapper
+		for _, sc := range c13schemas {
+			for _, tm := range []influxql.TypeMapper{c13callTyper{sc}, influxql.MultiTypeMapper(sc, c13callTyper{sc}), influxql.MultiTypeMapper(), nil} {
+				for _, f := range s.Fields {
+					_ = influxql.EvalType(f.Expr, s.Sources, tm)
+					tv := influxql.TypeValuerEval{TypeMapper: tm, Sources: s.Sources}
+					if _, err := tv.EvalType(f.Expr); err != nil {
+						_ = err.Error()
+					}
+				}
+				if s.Condition != nil {
+					tv := influxql.TypeValuerEval{TypeMapper: tm, Sources: s.Sources}
+					if _, err := tv.EvalType(s.Condition); err != nil {
+						_ = err.Error()
+					}
+				}
+			}
+		}
+	}},
+	{"sort/partition/conjunctions", func(_ influxql.Statement, s *influxql.SelectStatement) {
+		c := s.Clone()
+		sort.Sort(c.Fields)
+		_ = c.String()
+		_ = influxql.Measurements(s.Sources.Measurements()).String()
+		parts := influxql.ConjunctionsToExprSlice(s.Condition)
+		_ = influxql.ExprsToConjunction(parts...)
+		_ = influxql.ExprsToConjunction()
+		pass, fail, _ := influxql.PartitionExpr(influxql.CloneExpr(s.Condition), func(e influxql.Expr) (bool, error) {
+			return influxql.HasTimeExpr(e), nil
+		})
+		for _, e := range []influxql.Expr{pass, fail} {
+			if e != nil {
+				_ = e.String()
+			}
+		}
+		_, _, _ = influxql.PartitionExpr(s.Condition, func(e influxql.Expr) (bool, error) { return false, fmt.Errorf("stop") })
+		nv := influxql.NowValuer{Now: c13clock}
+		_, _ = nv.Value("now()")
+		_, _ = nv.Value("x")
+		var tr influxql.TimeRange
+		_, _, _, _ = tr.IsZero(), tr.MinTime(), tr.MaxTime(), tr.MinTimeNano()
 	}},
 	{"SetTimeRange", func(_ influxql.Statement, s *influxql.SelectStatement) {
 		_ = s.SetTimeRange(c13clock, c13clock.Add(time.Hour))
